@@ -119,6 +119,25 @@ def cases(tier, rng):
                                     nl = rng.random() < 0.8
                                     yield {"op": "read", "fmt": fmt, "header": header, "ents": bad, "i": i, "kind": kind, "k": k, "gz": gz,
                                            "lazy": lazy, "nl": nl}
+    # the byte-level reader used directly, and bnp.count_entries (fixed 500000-byte chunks) on a file larger than one chunk
+    for fmt, kinds in (("fastq", ["marker", "plus"]), ("fasta2line", ["marker"]), ("bed", ["ncols_more", "ncols_less"])):
+        for n in (3, 5):
+            ents, header = c01.make_entries(fmt, n, [2, 5], rng)
+            for kind in kinds:
+                for i in range(n):
+                    bad = _inject(fmt, ents, i, kind)
+                    L = len("".join(bad))
+                    for k in sorted({1, 2, len(bad[0]), len(bad[0]) + 1, L // 2 + 1, L, L + 1} if big else rng.sample(sorted({1, len(bad[0]) + 1, L // 2 + 1, L + 1}), 2)):
+                        for gz in (False, True):
+                            yield {"op": "read", "fmt": fmt, "header": header, "ents": bad, "i": i, "kind": kind, "k": k, "gz": gz, "lazy": False,
+                                   "nl": True, "via": "bare"}
+    for fmt, kind in (("fastq", "marker"), ("fastq", "plus"), ("bed", "ncols_less")):
+        n = 30000 if fmt == "fastq" else 45000          # > 500000 bytes
+        ents, header = c01.make_entries(fmt, 4, [5, 5], rng)
+        ents = [ents[j % 4] for j in range(n)]
+        for i in ((n - 2, n // 2 + 1) if big else (n - 2,)):
+            yield {"op": "read", "fmt": fmt, "header": header, "ents": _inject(fmt, ents, i, kind), "i": i, "kind": kind, "k": 500000, "gz": False,
+                   "lazy": False, "nl": True, "via": "count"}
     for _ in range(300 if big else 60):
         w = rng.randint(1, 6)
         i, j = rng.randint(0, 5), rng.randrange(w)
@@ -154,6 +173,21 @@ def impl(c):
         fh.write(_text(c).encode())
     try:
         rows = 0
+        via = c.get("via", "open")
+        if via == "bare":
+            # the byte-level reader used directly (as bnp.count_entries does): validation of k-line formats and the
+            # column-count check happen when the buffer is made
+            from bionumpy.io.parser import NumpyFileReader
+            fobj = (gzip.open if c["gz"] else open)(path, "rb")
+            r = NumpyFileReader(fobj, bt)
+            if c["gz"]:
+                r.set_prepend_mode()
+            for buf in r.read_chunks(min_chunk_size=c["k"]):
+                rows += buf.count_entries()
+            fobj.close()
+            return {"table": rows}
+        if via == "count":
+            return {"table": int(bnp.count_entries(path, buffer_type=bt))}
         with bnp.open(path, buffer_type=bt, lazy=c["lazy"]) as f:
             for chunk in f.read_chunks(min_chunk_size=c["k"]):
                 rows += len(c01.table_rows(chunk))
@@ -237,6 +271,8 @@ def agree(c, got, exp):
 def model_request(c):
     if c["op"] != "read":
         return c
+    if c.get("via") == "count":
+        return None        # 600 kB files: decided against the oracle (exact line known), the list-based Lean model is slow on them
     body = "".join(c["ents"])
     if not c["nl"]:
         body = body[:-1]
